@@ -18,6 +18,7 @@ import (
 	"bytes"
 	"fmt"
 	"os"
+	"sort"
 	"strconv"
 	"time"
 
@@ -246,17 +247,46 @@ func handleScan(u *upstream, req *rawRequest) {
 
 	// convert to simple request.
 	nodeIdx, simpleReq := scanReq.Convert()
-	hosts := u.Hosts()
+	addrs := scanAddrs(u)
 
 	// check if already scanned all the nodes.
-	if nodeIdx >= uint16(len(hosts)) {
+	if int(nodeIdx) >= len(addrs) {
 		req.SetResponse(respScanTerm)
 		return
 	}
 
 	// send request to the specified node.
-	host := hosts[nodeIdx]
-	u.MakeRequestToHost(host.Addr, simpleReq)
+	u.MakeRequestToHost(addrs[nodeIdx], simpleReq)
+}
+
+// scanAddrs returns the nodes a SCAN iteration walks over, in a stable order: the
+// masters of the routing table, which together hold every key exactly once. The
+// hosts of the service also contain the replicas: walking over them returned every
+// key once more per replica and read from replicas whatever the read strategy
+// says. They are only used as long as no routing information is known.
+func scanAddrs(u *upstream) []string {
+	var (
+		addrs []string
+		seen  = make(map[string]struct{})
+	)
+	for i := range u.slots {
+		inst := u.slots[i]
+		if inst == nil {
+			continue
+		}
+		if _, ok := seen[inst.Addr]; !ok {
+			seen[inst.Addr] = struct{}{}
+			addrs = append(addrs, inst.Addr)
+		}
+	}
+	if len(addrs) == 0 {
+		for _, h := range u.Hosts() {
+			addrs = append(addrs, h.Addr)
+		}
+		return addrs
+	}
+	sort.Strings(addrs)
+	return addrs
 }
 
 func handleHotKey(u *upstream, req *rawRequest) {
